@@ -192,7 +192,9 @@ class MultivariateNormal(TMultivariateNormal, Distribution):
             # Initialize using  __new__, so that we can skip __init__ and use scale_tril.
             new = self.__new__(type(self))
             new._islazy = False
-            new_scale_tril = self.__unbroadcasted_scale_tril.unsqueeze(dim)
+            # NOTE: the unbroadcasted scale_tril may have fewer batch dimensions than batch_shape;
+            # `dim` refers to batch_shape, so unsqueeze the broadcasted factor.
+            new_scale_tril = self.scale_tril.unsqueeze(dim)
             super(MultivariateNormal, new).__init__(loc=new_loc, scale_tril=new_scale_tril)
             # Set the covar matrix, since it is always available for GPyTorch MVN.
             new.covariance_matrix = self.covariance_matrix.unsqueeze(dim)
